@@ -258,7 +258,7 @@ func NewProbe() *Probe {
 	pr.Ir = ir
 	call := func(deferred bool) {
 		pr.Calls++
-		if pr.K > 0 && pr.Calls > pr.K {
+		if pr.Calls > pr.K { // K == 0: every call counts as later
 			pr.Later++
 			if deferred {
 				pr.LaterD++
